@@ -237,7 +237,7 @@ def _map_to_station_ids(
     :return: the price data organized by StationId
     """
     updated = {}  # refactor using immutables.Map()?
-    for k in this_update.keys():
+    for k in sorted(this_update.keys()):
         if k in sim.stations:
             # k is a StationId; leave as is
             updated.update({k: this_update[k]})
@@ -265,8 +265,10 @@ def _map_to_station_ids(
                 )
 
                 # all of these station ids should get entries managers the provided geoid
+                # (a station named by several overlapping regions keeps the prices of each of them)
                 for station_id in station_ids:
-                    updated.update({station_id: this_update[k]})
+                    previous = updated.get(station_id, immutables.Map())
+                    updated.update({station_id: previous.update(this_update[k])})
 
             except ValueError as e:
                 # todo: handle failure here
